@@ -65,8 +65,8 @@ def make_jobs(tier, seed, want):
     for gen, r, c in ([("gen_percolation", 2, 4), ("gen_dfs_percolation", 2, 3)] if q else
                       [("gen_percolation", 3, 3), ("gen_percolation", 3, 4), ("gen_dfs_percolation", 3, 3)]):
         for kw in ([dict(), dict(p=0), dict(p=1)] if gen == "gen_percolation" else [dict(), dict(p=0.5, accessible_cells=3)]):
-            if "c12" in want and gen == "gen_percolation" and r * c > 9 and not kw:
-                continue  # the component search over 17 free bits did not finish within the 55-minute instance budget (C12 only; C01 keeps it)
+            if gen == "gen_percolation" and r * c > 9 and not kw:
+                continue  # 17 free bits: a single instance of 45+ minutes (C12: over the 55-minute budget) - only p in {0, 1} on 3x4
             if gen == "gen_dfs_percolation" and r * c == 9:
                 for a in range(2):
                     for b in range(2):
@@ -149,7 +149,7 @@ META = dict(
               "(accessible_cells in {None,0,1,2,rc-1,rc,rc+1,0.0,0.5,1.0}, max_tree_depth in {None,0,1,2,3,0.5,1.0}, do_forks, randomized_stack, "
               "start_coord) one-at-a-time plus seeded combinations; gen_dfs 3x3 and on corridors 1x130, 131x1 with a given start cell (beyond the int8 coordinate range); percolation 3x3 (p in {0.4,0,1}); Wilson on <=2x2 with total "
               "walk bound K=8 and 2x3/3x2 with K=7",
-        thorough="as quick plus gen_dfs 3x4/4x3/4x4, gen_prim / randomized_stack on 3x3 only with accessible_cells <= 5, percolation 3x4, dfs_percolation 3x3, Wilson 2x2 K=12, 2x3/3x2 K=9, 3x3 K=7 (K=9 on 3x3 did not finish within the 55-minute instance budget)",
+        thorough="as quick plus gen_dfs 3x4/4x3/4x4, gen_prim / randomized_stack on 3x3 only with accessible_cells <= 5, percolation 3x4 for p in {0, 1} only, dfs_percolation 3x3, Wilson 2x2 K=12, 2x3/3x2 K=9, 3x3 K=7 (K=9 on 3x3 did not finish within the 55-minute instance budget)",
     ),
     degenerate=dict(gen_dfs="each path is one concrete random execution (draws are concretised when used as indices): exhaustive "
                             "enumeration of the RNG decision tree within the bound; percolation variants keep the edge bits symbolic"),
